@@ -220,6 +220,24 @@ CHECKS["C18"] = dict(
     design="§7 C18",
 )
 
+CHECKS["C19"] = dict(
+    text=("Lean, static part: tools/effects.py re-extracts from the source, on every run, the effect table of all functions of groupby_lib (local in-place "
+          "writes: subscript / augmented stores, out=, np.copyto & co, in-place methods, attribute stores, inplace=True; calls with the aliases bound to each "
+          "callee parameter, alias kinds object / view / element / held-in-fresh-container) and a certificate; reach_mem_of_closed proves (induction over call "
+          "chains) that a certificate which contains the local writes and is closed under every call site over-approximates every reachable write; "
+          "generated_cert_closed / generated_cert_safe check the generated table by kernel evaluation; public_entry_writes_no_input: no public entry point can "
+          "write through one of its parameters or store into a buffer of the grouping's state. Semantic part on a heap model: frame (stores above the "
+          "pre-existing buffers leave them unchanged), result_edit_keeps_inputs, repeat_call_same_result. Dynamic correspondence: byte-level snapshots of "
+          "every input object and of the numpy buffers they view, before/after each call of random 1-3 step histories over all public operations, key / value / "
+          "mask containers incl. zero-copy views; the result is then edited in place and the inputs, the grouping's labels / row decoding and the repeated "
+          "call (same and fresh grouping) are compared."),
+    note=("The abstract interpretation of Python in tools/effects.py is trusted (its alias rules are listed in its docstring; unknown third-party calls are "
+          "assumed not to write their arguments); the dynamic check is what observes third-party behaviour. groupby_lib/extensions.py (explicit inplace=True "
+          "helpers patched onto pandas) is outside the entry-point set."),
+    technique="Lean 4 proof (certificate soundness by induction on reachability; generated effect table checked by decide +kernel; heap frame theorem) + byte-level snapshot / result-scribble differential runs",
+    design="§7 C19",
+)
+
 NOT_APPLICABLE: list[dict] = []
 
 
